@@ -120,6 +120,7 @@ def scenario(conf, restartfreq=3, nsteps=8, base=True, log=None, temperature=300
         S.append("step")
         if k == 4:
             S.append("save text mid.state")
+            S.append("save binary mid.bin.state")
     S += ["postrun", "objs"]
     return "\n".join(S) + "\n"
 
@@ -268,5 +269,23 @@ STRUCTURAL = [
     ("colvar:period-negative", cv("x", 1, "", "    period -1\n"), None),
     ("colvar:duplicate-name", cv("zz0", 1), "reject"),
     ("group:hbond-nonexistent-atom", "colvar {\n  name s\n  hBond {\n    acceptor 1000\n    donor 2\n  }\n}\n", "reject"),
+    ("group:residue-range-huge", "colvar {\n  name s\n  alpha {\n    residueRange 1-2147483647\n    psfSegID MAIN\n  }\n}\n", "reject"),
+    ("group:residue-range-huge-dihedpc", "colvar {\n  name s\n  dihedralPC {\n    residueRange 1-2147483647\n    psfSegID MAIN\n    vector 1 1 1 1\n  }\n}\n", "reject"),
+    ("group:residue-range-reversed", "colvar {\n  name s\n  alpha {\n    residueRange 9-1\n    psfSegID MAIN\n  }\n}\n", "reject"),
     ("group:hbond-valid", "colvar {\n  name s\n  hBond {\n    acceptor 1\n    donor 2\n  }\n}\n", "accept"),
 ]
+
+
+# ------------------------------------------------------------------------------------------------
+# vector-valued (per-variable) keywords on two variables: (label, configuration with {V}, presized, element check)
+# ------------------------------------------------------------------------------------------------
+_XY = cv("x", 1, GRIDCV, "    oneSiteTotalForce on\n") + cv("y", 2, GRIDCV, "    oneSiteTotalForce on\n")
+VECTORS = [
+    ("harmonic.centers", _XY + "harmonic {\n  name r\n  colvars x y\n  centers {V}\n  forceConstant 1.0\n}\n", True, "any"),
+    ("harmonic.targetCenters", _XY + "harmonic {\n  name r\n  colvars x y\n  centers 1 1\n  forceConstant 1.0\n  targetCenters {V}\n  targetNumSteps 4\n}\n", False, "any"),
+    ("abf.maxForce", _XY + "abf {\n  name a\n  colvars x y\n  fullSamples 2\n  maxForce {V}\n}\n", False, "nonneg"),
+    ("meta.gaussianSigmas", _XY + "metadynamics {\n  name m\n  colvars x y\n  hillWeight 0.1\n  gaussianSigmas {V}\n  newHillFrequency 2\n}\n", False, "any"),
+    ("opes.gaussianSigma", _XY + "opes_metad {\n  name o\n  colvars x y\n  newHillFrequency 2\n  barrier 10\n  gaussianSigma {V}\n}\n", True, "any"),
+    ("walls.upperWalls", _XY + "harmonicWalls {\n  name w\n  colvars x y\n  upperWalls {V}\n  forceConstant 1.0\n}\n", False, "any"),
+]
+VECTOR_VALUES = ["1", "1 2", "1 2 3", "1 x", "x 1", "nan 2", "", "0.5 0.25", "1 2abc", "1e300 1", "3 1e-300"]
